@@ -89,6 +89,9 @@ class FnGen:
         return body
 
 
+_ARG_DTYPES = [np.float64, np.float64, np.float64, np.float32, np.complex128, np.float32]
+
+
 def build_case(ctx, rng, ci):
     """returns (direct outputs dict, traced outputs dict, placeholders dict)"""
     import pytato as pt
@@ -101,7 +104,8 @@ def build_case(ctx, rng, ci):
 
     def ph(name):
         if name not in phs:
-            phs[name] = pt.make_placeholder(name, shape, np.float64)
+            # arguments of several element types (a traced parameter copies the dtype of ITS argument, however passed)
+            phs[name] = pt.make_placeholder(name, shape, rng.choice(_ARG_DTYPES))
         return phs[name]
     # caller placeholders sometimes named like the callee's parameters (in__pt_0, in_a, ...)
     adversarial = rng.random() < 0.4
@@ -194,7 +198,9 @@ def run(ctx: common.Ctx):
         stats[info["ret"]] += 1
         stats["nested"] += info["nest"] > 0
         stats["adversarial"] += info["adversarial_names"]
-        inp = {n: nprng.integers(-4, 5, size=p.shape) / 2.0 for n, p in phs.items()}
+        inp = {n: (nprng.integers(-4, 5, size=p.shape) / 2.0
+                   + (1j * nprng.integers(-4, 5, size=p.shape) / 2.0 if p.dtype.kind == "c" else 0)).astype(p.dtype)
+               for n, p in phs.items()}
         # (1) metadata + values: traced vs direct
         bad = False
         for k in direct:
